@@ -16,7 +16,7 @@
 From Coq Require Import List NArith ZArith Bool Arith Lia.
 Import ListNotations.
 Require Import XV.Str XV.Json XV.TextFormat XV.Forest XV.Matcher XV.Differ XV.Path XV.WF XV.AttrProofs XV.XmlFmt XV.Projections
-               XV.XmlFmtProofs1 XV.XmlFmtProofs2 XV.XmlFmtProofs3.
+               XV.XmlFmtProofs0 XV.XmlFmtProofs1 XV.XmlFmtProofs2 XV.XmlFmtProofs3.
 Require XV.Placeholder XV.PlaceholderUndo.
 Require XV.DMP XV.DMPBase.
 Local Open Scope nat_scope.
@@ -31,8 +31,8 @@ Qed.
 
 Lemma Forall_insert_kid {A} (P : A -> Prop) i x l : Forall P l -> P x -> Forall P (insert_kid i x l).
 Proof.
-  intros H Hx. unfold insert_kid. apply Forall_app. split; [apply Forall_forall; intros y Hy; apply firstn_In in Hy; rewrite Forall_forall in H; auto|].
-  constructor; [exact Hx|]. apply Forall_forall. intros y Hy. apply skipn_In in Hy. rewrite Forall_forall in H. auto.
+  intros H Hx. unfold insert_kid. rewrite <- (firstn_skipn i l) in H. apply Forall_app in H as [H1 H2].
+  apply Forall_app. split; [exact H1|]. constructor; assumption.
 Qed.
 
 Lemma Forall_nth {A} (P : A -> Prop) l i x : Forall P l -> nth_error l i = Some x -> P x.
@@ -122,7 +122,7 @@ Proof.
 Qed.
 
 Lemma is_run_enc d : Forall (fun sg : DMP.op * str => plain (snd sg) /\ snd sg <> []) d -> is_run (enc d).
-Proof. intros H. exists d. split; [|reflexivity]. eapply Forall_impl; [|exact H]. cbn. unfold plainseg. tauto. Qed.
+Proof. intros H. exists d. split; [|reflexivity]. eapply Forall_impl; [|exact H]. intros a [Ha _]. exact Ha. Qed.
 
 (* ------------------------------------------------------------------ *)
 (** * The rejected view without attributes *)
@@ -170,18 +170,71 @@ Proof.
 Qed.
 
 Lemma vr_map_at W p n n' : get_at W p = Some n -> alive_r n' = alive_r n ->
-  (p = [] \/ alive_r n = true -> vr n' = vr n) ->
-  vr (map_at p (fun _ => n') W) = vr W /\ alive_r (map_at p (fun _ => n') W) = alive_r W.
+  (alive_r n = true -> vr n' = vr n) ->
+  alive_r (map_at p (fun _ => n') W) = alive_r W /\
+  (p <> [] \/ alive_r n = true -> vr (map_at p (fun _ => n') W) = vr W).
 Proof.
   revert W; induction p as [|i p IH]; intros W E Ha Hv; cbn [get_at map_at] in *.
-  - inversion E; subst. split; [apply Hv; now left|exact Ha].
+  - inversion E; subst. split; [exact Ha|]. intros [H|H]; [congruence|auto].
   - destruct (nth_error (xkids W) i) as [k|] eqn:Ek; [|discriminate].
-    destruct (IH k E Ha) as [V A].
-    { intros [->|H]; apply Hv; [|now right]. destruct (alive_r n) eqn:En; [now right|].
-      (* p = [] below the root: the node itself is k *) cbn in E. inversion E; subst. now right. }
-    split; [|destruct W; reflexivity].
+    destruct (IH k E Ha Hv) as [A V].
+    split; [destruct W; reflexivity|]. intros _.
     apply vr_same. destruct W as [tag attrs text tail kids]. unfold same_r.
     cbn [with_kids xtag xattrs xtext xtail xkids proj_tag]. repeat split.
-    cbn [xkids] in Ek. apply (vr_kids_set_nth kids i k _ Ek A). intros _. exact V.
+    cbn [xkids] in Ek. apply (vr_kids_set_nth kids i k _ Ek A). intros Hk. apply V.
+    destruct p as [|j p]; [right|left; discriminate]. cbn in E. inversion E; subst. exact Hk.
 Qed.
 End VR.
+
+(* ------------------------------------------------------------------ *)
+(** * Side conditions of one action on the current tree *)
+
+Lemma ntxt_norm_if c x : ntxt (ws_text c) (norm_if c x) = ntxt (ws_text c) x.
+Proof.
+  unfold ntxt, norm_if. destruct (ws_text c); [|reflexivity]. apply (norm_ws_idem x).
+Qed.
+
+(* attribute handlers touch a plain attribute and one diff:*-attr annotation: neither
+   diff:rename nor diff:insert *)
+Definition plain_name (k : str) : Prop := is_diff_name k = false.
+
+Lemma aget_aput_other a k v k' : k' <> k -> aget (aput a k v) k' = aget a k'.
+Proof.
+  intros H. rewrite aget_aput. destruct (str_eqb k k') eqn:E; [|reflexivity].
+  apply streqb_true in E. congruence.
+Qed.
+Lemma aget_adel_other a k k' : k' <> k -> aget (adel a k) k' = aget a k'.
+Proof.
+  intros H. rewrite aget_adel. destruct (str_eqb k k') eqn:E; [|reflexivity].
+  apply streqb_true in E. congruence.
+Qed.
+
+Lemma dname_inj a b : dname a = dname b -> a = b.
+Proof. unfold dname. apply app_inv_head. Qed.
+
+Lemma extend_get a action value k : k <> dname (action ++ s_attr_suffix) ->
+  aget (extend_diff_attr a action value) k = aget a k.
+Proof. intros H. unfold extend_diff_attr. apply aget_aput_other, H. Qed.
+
+Lemma attr_suffix_neq action l : l = Placeholder.s_insert \/ l = s_rename -> action = Placeholder.s_delete \/ action = s_add \/ action = s_rename \/ action = s_update ->
+  dname l <> dname (action ++ s_attr_suffix).
+Proof.
+  intros [->| ->] [->|[->|[->| ->]]] H; apply dname_inj in H; discriminate.
+Qed.
+
+Lemma plain_name_neq k l : plain_name k -> k <> dname l.
+Proof. intros H E. subst. unfold plain_name in H. rewrite is_diff_dname in H. discriminate. Qed.
+
+(* what the rejected view reads of the attributes *)
+Definition same_marks (a b : list (str * str)) : Prop :=
+  aget a RENAME_NAME = aget b RENAME_NAME /\ aget a INSERT_NAME = aget b INSERT_NAME.
+
+Lemma same_marks_view ws n a : same_marks a (xattrs n) ->
+  vr ws (with_attrs n a) = vr ws n /\ alive_r (with_attrs n a) = alive_r n.
+Proof.
+  intros [H1 H2]. split.
+  - apply vr_same. destruct n as [tag attrs text tail kids]. unfold same_r.
+    cbn [with_attrs xtag xattrs xtext xtail xkids proj_tag] in *.
+    change (dn l_rename) with RENAME_NAME. rewrite H1. auto.
+  - unfold alive_r, is_inserted, ahas. destruct n. cbn [with_attrs xattrs] in *. now rewrite H2.
+Qed.
